@@ -179,7 +179,21 @@ fn run_point(server: &Server, frames: &[wire::Frame], stream: &[u8], ends: &[usi
         }
     }
     let complete = if kind == 5 { ends.iter().filter(|e| **e <= cut).count() } else { complete };
-    let drained = c.send_chunk(&sent, wait);
+    // every second point delivers the prefix in two reads: up to the end of the last complete frame's
+    // header first, then the rest (a request whose body arrives separately from its header is still
+    // "completely sent")
+    let drained = {
+        let last_complete_start = if complete == 0 { None } else if complete == 1 { Some(0usize) } else { Some(ends[complete - 2]) };
+        match last_complete_start {
+            Some(st) if (cut + kind) % 2 == 1 && kind != 5 && st + 24 < sent.len() && ends[complete - 1] > st + 24 => {
+                let first = sent[..st + 24].to_vec();
+                let rest = sent[st + 24..].to_vec();
+                let _ = c.send_chunk(&first, wait);
+                c.send_chunk(&rest, wait)
+            }
+            _ => c.send_chunk(&sent, wait),
+        }
+    };
     let due = refr.resp[complete].len();
     let orderly;
     match kind {
@@ -194,9 +208,20 @@ fn run_point(server: &Server, frames: &[wire::Frame], stream: &[u8], ends: &[usi
         }
         1 => {
             orderly = true;
-            if !c.read_until(wait, |cl| cl.resps.len() >= due) {
-                if !(c.eof || c.reset) {
-                    return Ok(None);
+            if !c.read_until(Duration::from_secs(3), |cl| cl.resps.len() >= due) && !(c.eof || c.reset) {
+                // confirm once: a completely sent request must be answered without further input
+                if !c.read_until(Duration::from_secs(3), |cl| cl.resps.len() >= due) && !(c.eof || c.reset) {
+                    return Err((
+                        "complete_request_not_answered".into(),
+                        format!(
+                            "pipeline of {} requests, {} complete before offset {}: only {} of {} due responses arrived within 6 s although the requests were completely sent and the connection is open",
+                            frames.len(),
+                            complete,
+                            cut,
+                            c.resps.len(),
+                            due
+                        ),
+                    ));
                 }
             }
         }
@@ -208,8 +233,20 @@ fn run_point(server: &Server, frames: &[wire::Frame], stream: &[u8], ends: &[usi
         4 => orderly = due == 0,
         _ => {
             orderly = true;
-            if !c.read_until(wait, |cl| cl.resps.len() >= due) && !(c.eof || c.reset) {
-                return Ok(None);
+            if !c.read_until(Duration::from_secs(3), |cl| cl.resps.len() >= due) && !(c.eof || c.reset) {
+                if !c.read_until(Duration::from_secs(3), |cl| cl.resps.len() >= due) && !(c.eof || c.reset) {
+                    return Err((
+                        "complete_request_not_answered".into(),
+                        format!(
+                            "pipeline of {} requests, {} complete before offset {}: only {} of {} due responses arrived within 6 s although the requests were completely sent and the connection is open",
+                            frames.len(),
+                            complete,
+                            cut,
+                            c.resps.len(),
+                            due
+                        ),
+                    ));
+                }
             }
         }
     }
@@ -457,6 +494,89 @@ fn before_accept_scenarios(ctx: &Ctx, acc: &Accum) -> Option<FailInfo> {
     None
 }
 
+/// A client leaves far more answers unread than its receive window holds and then faults (invalid
+/// header / half-close). Other connections must keep being served promptly.
+fn unread_backlog_scenarios(ctx: &Ctx, acc: &Accum) -> Option<FailInfo> {
+    use std::io::Write;
+    use std::os::fd::AsRawFd;
+    let wait = Duration::from_secs(8);
+    for workers in [0usize, 2] {
+        for fault in 0..2u8 {
+            let server = match netpipe::start_server(ServerOpts { workers, ..ServerOpts::default() }) {
+                Ok(s) => s,
+                Err(_) => continue,
+            };
+            let mut obs = Client::connect(server.port).ok()?;
+            let _ = obs.sock.set_nonblocking(false);
+            let _ = obs.sock.write_all(&Cmd::set(b"obs", b"1", 0, 0).bytes());
+            if !obs.read_until(wait, |c| !c.resps.is_empty()) {
+                continue;
+            }
+            let mut f = Client::connect(server.port).ok()?;
+            // tiny receive window on the faulty client
+            let small: libc::c_int = 2048;
+            unsafe {
+                libc::setsockopt(f.sock.as_raw_fd(), libc::SOL_SOCKET, libc::SO_RCVBUF, &small as *const _ as *const libc::c_void, 4);
+            }
+            let _ = f.sock.set_nonblocking(false);
+            let big = crate::sym::patterned(40_000, 0x55);
+            let mut pipe = vec![];
+            wire::store(wire::SET, b"bigv", &big, 0, 0, 1, 0).write_to(&mut pipe);
+            for i in 0..25u32 {
+                wire::get(wire::GET, b"bigv", 100 + i).write_to(&mut pipe);
+            }
+            if fault == 0 {
+                let mut bad = wire::simple(wire::NOOP, 999).bytes();
+                bad[0] = 0x42;
+                pipe.extend_from_slice(&bad);
+            }
+            let _ = f.sock.write_all(&pipe);
+            if fault == 1 {
+                f.half_close();
+            }
+            // the faulty client never reads. Give the server a moment to run into the fault, then the
+            // observer must still be answered promptly
+            std::thread::sleep(Duration::from_millis(300));
+            let t0 = std::time::Instant::now();
+            let mut g = Cmd::get(b"obs");
+            g.opaque = 77;
+            let _ = obs.sock.write_all(&g.bytes());
+            let ok = obs.read_until(wait, |c| c.has_opaque(77));
+            let took = t0.elapsed();
+            let fresh_ok = match Client::connect(server.port) {
+                Ok(mut d) => {
+                    let _ = d.sock.set_nonblocking(false);
+                    let _ = d.sock.write_all(&wire::simple(wire::NOOP, 5).bytes());
+                    let r = d.read_until(wait, |c| c.has_opaque(5));
+                    d.reset_close();
+                    r
+                }
+                Err(_) => false,
+            };
+            acc.record_enum(hash_of(&("unread_backlog", workers, fault)), true, &["unread_backlog_then_fault"], || json!({"workers": workers, "fault": fault}));
+            f.reset_close();
+            obs.reset_close();
+            if !ok || !fresh_ok {
+                return Some(FailInfo {
+                    clause: "observer_disturbed".into(),
+                    msg: format!(
+                        "runtime workers {}: a client pipelined 25 gets of a 40 KB value without reading any answer and then {}; another connection's get was answered: {} (waited {:?}), a fresh connection was served: {} - the fault is not contained",
+                        workers,
+                        if fault == 0 { "sent an invalid header" } else { "half-closed" },
+                        ok,
+                        took,
+                        fresh_ok
+                    ),
+                    signature: "observer_disturbed".into(),
+                    detail: json!({"scenario": "unread_backlog", "workers": workers, "fault": fault}),
+                });
+            }
+        }
+    }
+    let _ = ctx;
+    None
+}
+
 pub fn check(ctx: &mut Ctx) -> i32 {
     let acc = Accum::new();
     for path in regress_files("C18") {
@@ -472,6 +592,11 @@ pub fn check(ctx: &mut Ctx) -> i32 {
     }
     if let Some(fi) = before_accept_scenarios(ctx, &acc) {
         report_violation(ctx, "c18_before_accept", &fi.detail.clone(), &fi);
+        write_evidence(ctx, &acc, RULE, ASSUME, 1);
+        return EXIT_VIOLATION;
+    }
+    if let Some(fi) = unread_backlog_scenarios(ctx, &acc) {
+        report_violation(ctx, "c18_unread_backlog", &fi.detail.clone(), &fi);
         write_evidence(ctx, &acc, RULE, ASSUME, 1);
         return EXIT_VIOLATION;
     }
@@ -513,6 +638,21 @@ fn load(path: &str) -> Result<C18Case, String> {
 }
 
 pub fn replay(path: &str) -> i32 {
+    if std::fs::read_to_string(path).map(|s| s.contains("c18_unread_backlog")).unwrap_or(false) {
+        let ctx = Ctx::new("C18", Tier::Quick, "fault_enumeration");
+        let acc = Accum::new();
+        return match unread_backlog_scenarios(&ctx, &acc) {
+            Some(fi) => {
+                println!("{}", fi.msg);
+                println!("VIOLATION property=C18 replay={}", path);
+                EXIT_VIOLATION
+            }
+            None => {
+                println!("replay {}: property C18 holds on this case", path);
+                EXIT_OK
+            }
+        };
+    }
     if std::fs::read_to_string(path).map(|s| s.contains("c18_before_accept")).unwrap_or(false) {
         let ctx = Ctx::new("C18", Tier::Quick, "fault_enumeration");
         let acc = Accum::new();
